@@ -254,6 +254,8 @@ func newWatch(prog *mx.Progress) *mx.Watch {
 	return w
 }
 
+func knownFinding(id string) (ev.Finding, bool) { return ev.IsKnownFinding(id) }
+
 // errInconclusive marks harness trouble inside a case (never a violation).
 type errInconclusive struct{ msg string }
 
